@@ -123,7 +123,9 @@ func C05_RecoverReissue() {
 	verif.Assume(a.hasRecoverTok)
 	v := symbolicValues()
 	verif.Assume(verif.And(v.PID == a.pid, !v.Invalid))
+	tb := time.Now().UTC()
 	_, panicked, _ := f.serve("POST /recover", v, nil)
+	ta := time.Now().UTC()
 	if panicked || len(f.w.ErrH.Errs) > 0 {
 		return
 	}
@@ -135,6 +137,8 @@ func C05_RecoverReissue() {
 	verif.Assert(len(m.To) == 1 && m.To[0] == a.u.Email, "the recovery mail goes to the account's address only")
 	post := f.w.Store.Get(a.pid)
 	verif.Assert(post.RecoverSelector != "", "a new selector is stored")
+	d := f.w.AB.Config.Modules.RecoverTokenDuration
+	verif.Assert(!post.RecoverTokenExpiry.Before(tb.Add(d)) && !post.RecoverTokenExpiry.After(ta.Add(d)), "the new token is valid for the configured period from the request that issued it")
 	verif.Assume(post.RecoverSelector != a.u.RecoverSelector) // fresh 64 random bytes differ from the outstanding token (negligible collision probability, stated)
 	verif.Assert(strings.Contains(m.TextBody, "/recover/end?token="), "the mail carries the token link")
 	// the superseded token
